@@ -26,6 +26,79 @@ CHECKS = {
         "level_note": "Trusted: harness/vfs storage, the map model, DB.Stats counters for classification. Schedules of background compaction are not controlled beyond forcing quiescence in half of the cases.",
         "assumptions": DBM_ASSUME,
     },
+    "C02": {
+        "test": "TestC02", "level": "exploration",
+        "technique": "model-based stateful property testing (rapid): generated iterator walks vs. a cursor over the model's sorted list",
+        "quick": {"shards": 16, "n": 900, "timeout": 600},
+        "thorough": {"shards": 16, "n": 40000, "timeout": 3000},
+        "floor": {"quick": 500, "thorough": 20000},
+        "rule": "rapid draws a DB history (writes, deletes, batches, compactions, snapshots held so that hidden versions stay in the tables, transactions) interleaved with iterators on DB / snapshot / transaction with drawn ranges and drawn walks (First/Last/Seek/Next/Prev, up to 30 moves, long-lived iterators resumed later). "
+                "Every move's result, Valid(), Key and Value are compared with a cursor over the model's sorted restricted list; each iterator ends with a full forward and a full backward pass. "
+                "Non-trivial: the case has a walk with a direction reversal and a Seek, tables next to the write buffer (>=2 physical sources) and hidden entries (snapshot held or delete before compaction). distinct = distinct case fingerprints.",
+        "level_text": "Exploration: generated walks over generated layouts, compared move by move with the documented cursor semantics; component iterators are covered additionally by C13/C14 checks. No exhaustiveness claim.",
+        "level_note": "Trusted: cursor model (position -1..n), vfs storage. Ranges are always valid intervals (Start<=Limit).",
+        "assumptions": DBM_ASSUME,
+    },
+    "C03": {
+        "test": "TestC03", "level": "exploration",
+        "technique": "model-based stateful property testing (rapid): persistent model copies per snapshot/iterator",
+        "quick": {"shards": 16, "n": 800, "timeout": 600},
+        "thorough": {"shards": 16, "n": 40000, "timeout": 3000},
+        "floor": {"quick": 1000, "thorough": 30000},
+        "rule": "rapid draws histories with up to 6 simultaneously live snapshots and 4 live iterators, point reads / scans / resumed walks through them, interleaved with writes, deletes, flushes, automatic and manual compactions; each handle is compared with the model copy taken at its creation, and after releasing one handle all others and the live DB are re-checked. "
+                "Non-trivial: a handle was read after a table compaction that ran after a key visible through it had been overwritten or deleted.",
+        "level_text": "Exploration over generated single-client histories; every read through a handle is compared with the frozen model copy.",
+        "level_note": "Trusted: model copies, vfs. Iterators are released before Close (documented requirement).",
+        "assumptions": DBM_ASSUME,
+    },
+    "C06": {
+        "test": "TestC06", "level": "exploration",
+        "technique": "stateful property testing with a validity predicate evaluated on every installed version (pinned through the verif version-observer hook)",
+        "quick": {"shards": 16, "n": 500, "timeout": 600},
+        "thorough": {"shards": 16, "n": 25000, "timeout": 3000},
+        "floor": {"quick": 1000, "thorough": 20000},
+        "rule": "rapid draws histories (flushes, automatic/seek/manual compactions, trivial moves, transactions, large batches, reopen) under all comparers and size options; EVERY version installed by the session is handed to the checker pinned, all its tables are read back from storage with table.NewReader under the real internal comparer and checked: file exists with recorded size, entries strictly increasing and parsable, recorded smallest/largest = first/last entry, levels>=1 sorted with strictly disjoint user-key ranges, and for every user key every entry in a shallower level is newer than every entry in a deeper level. "
+                "Non-trivial: the case installed a version with >=2 non-empty levels and >=2 files in some level >=1.",
+        "level_text": "Exploration: the well-formedness predicate is evaluated on every version installation of every generated history (about 10^5 versions per quick run).",
+        "level_note": "Trusted: the table reader used to read tables back, the version-observer hook (pins the version under the session mutex), vfs. States between two storage operations inside one installation are covered by C04.",
+        "assumptions": DBM_ASSUME,
+    },
+    "C07": {
+        "test": "TestC07", "level": "exploration",
+        "technique": "stateful property testing: long-lived iterators vs. model copies plus storage-listing invariants at quiescence",
+        "quick": {"shards": 16, "n": 600, "timeout": 600},
+        "thorough": {"shards": 16, "n": 30000, "timeout": 3000},
+        "floor": {"quick": 300, "thorough": 10000},
+        "rule": "rapid draws histories with long-lived iterators (OpenFilesCacheCapacity 1-2 so tables are reopened from storage), compactions, discarded transactions and reopen. Oracle A: every iterator is walked and fully scanned at the end and must equal its model copy; the storage flags any Open of a removed table. "
+                "Oracle B: at idle points (VerifWaitIdle) with no iterator or transaction alive, and after reopen, storage must hold exactly the live tables, one journal, the current manifest. Non-trivial: an iterator stayed alive across >=1 table removal and >=1 file-set check ran.",
+        "level_text": "Exploration over generated histories; both directions of the property (nothing needed deleted / nothing unneeded kept) are checked.",
+        "level_note": "Trusted: VerifWaitIdle establishes quiescence (synchronises with the compaction goroutines and the reference loop); vfs listing.",
+        "assumptions": DBM_ASSUME,
+    },
+    "C11": {
+        "test": "TestC11", "level": "exploration",
+        "technique": "model-based stateful property testing (rapid): transaction overlay model",
+        "quick": {"shards": 16, "n": 700, "timeout": 600},
+        "thorough": {"shards": 16, "n": 30000, "timeout": 3000},
+        "floor": {"quick": 1000, "thorough": 20000},
+        "rule": "rapid draws histories with OpenTransaction, transaction writes spanning several internal flushes, reads inside (overlay model) and outside (model at open) the transaction, Commit, Discard, Close with an open transaction, oversized DB.Write batches; after Discard/Commit/reopen a full sweep is compared with the model and, at idle, storage must contain no table outside the live set. "
+                "Non-trivial: a transaction was committed or discarded in a case that also flushed buffers.",
+        "level_text": "Exploration of the sequential transaction semantics (isolation, atomic visibility, no residue); crash atomicity of Commit is covered by the C04 engine, blocking behaviour by C09.",
+        "level_note": "Trusted: overlay model, vfs listing, VerifWaitIdle.",
+        "assumptions": DBM_ASSUME,
+    },
+    "C20": {
+        "test": "TestC20", "level": "exploration",
+        "technique": "stateful property testing in poison mode: argument and result buffers are overwritten after every call",
+        "quick": {"shards": 16, "n": 900, "timeout": 600},
+        "thorough": {"shards": 16, "n": 40000, "timeout": 3000},
+        "floor": {"quick": 1000, "thorough": 20000},
+        "rule": "the C01 machine in poison mode: every key/value/batch buffer passed to Put/Delete/Write/Batch.Put/Batch.Delete/Seek is compared with a pre-call copy and then overwritten with 0xAA; every value returned by DB.Get / Transaction.Get is overwritten; iterator Key/Value are copied and compared again after further DB activity before the iterator moves; buffer pool, block cache and compression are drawn. All later reads are compared with a model built from private copies. "
+                "Non-trivial: >=2 Get results that came after flush+compaction (i.e. from table blocks) were scribbled and keys re-read.",
+        "level_text": "Exploration: aliasing in either direction shows up as a later read disagreeing with the model.",
+        "level_note": "Trusted: model built from copies. Snapshot.Get results are not overwritten (its documentation forbids it).",
+        "assumptions": DBM_ASSUME,
+    },
 }
 
 # Properties not claimed (reason); filled automatically with "not built yet" when absent.
